@@ -22,6 +22,7 @@ def main(tier: str, seed: int) -> int:
                        'string values use single spaces (get_symbols collapses whitespace runs inside s"...": finding F8c)']
     quick = tier == 'quick'
     asmcheck.mc_family(rep, 'operands', 'asm', seed)
+    asmcheck.mc_family(rep, 'nopctx', 'asm', seed)
     asmcheck.mc_family(rep, 'struct', 'asm', seed)
     n = 4000 if quick else 60000
     jobs = [(seed * 7919 + i, n // 56) for i in range(56)]
